@@ -151,17 +151,32 @@ Theorem C11_unreachable_raises {E} apply_eq pick r0 r (c : list (pctx E)) x src 
 Proof. exact (unreachable_raises apply_eq pick r0 r c x src dst sd dd). Qed.
 
 (** * 5. Redefinitions reach the dependent units and nothing else
-    FULL STATEMENT: under the overlay of a context redefining [u], [root_of] of a unit changes
+    FULL STATEMENT: under the overlay of a context redefining [u], the root units of a unit change
     iff its reference chain reaches [u], and then as the new definition says.
-    PROVED (partial): the frame half — if the overlaid registry resolves every name outside the
-    affected spellings [K] as before, every container whose expansion stays outside [K] keeps
-    its root units and factor; plus the concrete instance below.  Missing: that [redefine]
-    establishes the hypothesis for arbitrary registries (prefix/plural parsing of [resolve]),
-    and the closed form of the change for the units that do reach [u]. *)
+    PROVED (partial): (a) the overlay writes the new definition under the canonical name, symbol
+    and aliases of [u] and nothing else; (b) the frame half for arbitrary registries: every
+    container whose expansion never consults a spelling of [u] keeps root units and factor —
+    first relative to any set [K] of affected spellings, then for [redefine] itself, with
+    decidable hypotheses checked on a concrete registry below.  MISSING: the closed form of the
+    change for the units that do reach [u] (shown on the concrete registry only: yard 36 -> 30),
+    and the same frame for [dim_of] (hence for [conv_factor]); [redefinition_scoped] is C12's. *)
 Theorem C11_redefinition_transitive_partial (K : string → Prop) (r r' : reg) (a : uc) :
   (∀ s, ¬ K s → resolve r' s = resolve r s) →
   reach_free K (reg_fuel r) r (map_to_list a) → root_of r' a = root_of r a.
 Proof. intros H. exact (root_of_frame K r r' H a). Qed.
+Theorem C11_redefine_writes_spellings_only (r : reg) (nd : udef) k :
+  r_units (r_over r nd) !! k = if decide (k ∈ spellings nd) then Some nd else r_units r !! k.
+Proof. exact (over_lookup r nd k). Qed.
+Theorem C11_redefinition_frame (r r' : reg) (d : redef) :
+  redefine r d = Ok r' →
+  ∃ nd, r' = r_over r nd ∧
+    (ownb r nd = true → ∀ a, reach_freeb (reg_fuel r) r nd (map_to_list a) = true → root_of r' a = root_of r a).
+Proof. exact (redefinition_frame_dec r r' d). Qed.
+Example C11_redefinition_hypotheses :
+  rd_reg' = r_over rd_reg rd_nd ∧ ownb rd_reg rd_nd = true ∧
+  reach_freeb (reg_fuel rd_reg) rd_reg rd_nd (map_to_list (u1 "hour")) = true ∧
+  reach_freeb (reg_fuel rd_reg) rd_reg rd_nd (map_to_list (u1 "yard")) = false.
+Proof. exact redefinition_hypotheses. Qed.
 Example C11_redefinition_example :
   root_factor rd_reg "yard" = Some (mkq 36 1) ∧ root_factor rd_reg' "yard" = Some (mkq 30 1) ∧
   root_factor rd_reg' "foot" = Some (mkq 10 1) ∧ root_factor rd_reg' "hour" = root_factor rd_reg "hour" ∧
